@@ -85,14 +85,6 @@ pub fn arena_images(c: &NCase) -> Vec<(ArenaKind, Vec<u8>)> {
             ArenaKind::Code => vec![0xccu8; d.len],
             k => fill(c.mem_seed, k, d.len),
         };
-        if d.kind == ArenaKind::Code {
-            let code = c.code_bytes();
-            let off = c.rip.wrapping_sub(d.base) as usize;
-            if off < d.len {
-                let n = code.len().min(d.len - off);
-                img[off..off + n].copy_from_slice(&code[..n]);
-            }
-        }
         for (addr, hexb) in &c.patches {
             let b = crate::util::unhex(hexb);
             for (i, byte) in b.iter().enumerate() {
@@ -100,6 +92,16 @@ pub fn arena_images(c: &NCase) -> Vec<(ArenaKind, Vec<u8>)> {
                 if a >= d.base && a < d.base + d.len as u64 {
                     img[(a - d.base) as usize] = *byte;
                 }
+            }
+        }
+        // the instruction bytes go in last: a data patch that overlaps them must not change which
+        // instruction executes (everything that labels the case decodes `code`)
+        if d.kind == ArenaKind::Code {
+            let code = c.code_bytes();
+            let off = c.rip.wrapping_sub(d.base) as usize;
+            if off < d.len {
+                let n = code.len().min(d.len - off);
+                img[off..off + n].copy_from_slice(&code[..n]);
             }
         }
         out.push((d.kind, img));
